@@ -3,6 +3,7 @@ One outer iteration of `nnchainWith` re-establishes the chain invariant (`chainI
 See the header of `Lemmas/ChainInv.lean` for the hypotheses and the shape of the invariant.
 -/
 import Kodama.Lemmas.ChainInv
+import Kodama.Lemmas.AverageClamp
 namespace Kodama
 open Spec
 variable {α : Type} [Num α]
@@ -54,6 +55,41 @@ theorem chainReducible_complete : ChainReducible α .complete where
     intro sizes sa sb dab x va vb v _ _ _ h1 h2 _ _ h
     simp only [chainUpdFn, updFn, Gen.complete, pure, Except.pure, Except.ok.injEq] at h
     subst h; split <;> assumption
+
+/-- Exactly the `nan` clause of `ChainReducible α .average`, as a named hypothesis: on non-NaN
+arguments (positive sizes) the average update yields no NaN.  It is a statement about `+ × /` of the
+number type only (no overflow to `∞ − ∞`, no `0/0`): the clamp never creates a NaN
+(`averageNoNaN_of_mean`). -/
+def AverageNoNaN (α : Type) [Num α] : Prop :=
+  ∀ (sizes : Array Nat) (sa sb : Nat) (dab : α) (x : Nat) (va vb v : α),
+    0 < sa → 0 < sb → Num.isNaN dab = false → Num.isNaN va = false → Num.isNaN vb = false →
+    Num.lt va dab = false → Num.lt vb dab = false →
+    chainUpdFn .average sizes sa sb dab x va vb = .ok v → Num.isNaN v = false
+
+/-- Sufficient for `AverageNoNaN`: the size-weighted mean `(sa·a + sb·b)/(sa + sb)` of two non-NaN
+values with positive sizes is not NaN. -/
+theorem averageNoNaN_of_mean
+    (h : ∀ (a b : α) (sa sb : Nat), 0 < sa → 0 < sb → Num.isNaN a = false → Num.isNaN b = false →
+      Num.isNaN (Gen.averageMean a b sa sb) = false) : AverageNoNaN α := by
+  intro sizes sa sb dab x va vb v hsa hsb _ na nb _ _ hv
+  simp only [chainUpdFn, updFn, pure, Except.pure, Except.ok.injEq] at hv
+  subst hv
+  exact Gen.average_isNaN_of_mean na nb (h va vb sa sb hsa hsb na nb)
+
+/-- **The clamped average is reducible in every ordered number type.**  `ge` needs `OrderLaws`
+only: the update returns one of its arguments, or a mean that is not below the smaller argument
+(`Gen.average_not_lt`); no field law, no exact arithmetic, no assumption on rounding.  `nan` is the
+hypothesis `AverageNoNaN`.  This is the formal counterpart of the `fix:` commit of the crate: for the
+UNCLAMPED formula `ChainReducible α .average` was false of IEEE floats (rounded mean one ulp below
+both arguments; failing run of the real crate: n = 14, f32). -/
+theorem chainReducible_average (L : OrderLaws α) (hn : AverageNoNaN α) :
+    ChainReducible α .average where
+  ge := by
+    intro sizes sa sb dab x va vb v t _ _ _ na nb _ _ h1 h2 h
+    simp only [chainUpdFn, updFn, pure, Except.pure, Except.ok.injEq] at h
+    subst h
+    exact Gen.average_not_lt L sa sb na nb h1 h2
+  nan := hn
 
 theorem chainUpdFn_ok (m : MethodChain) (sizes : Array Nat) (sa sb : Nat) (dab : α) (x : Nat)
     (va vb : α) (hx : x < sizes.size) : ∃ v, chainUpdFn m sizes sa sb dab x va vb = .ok v := by
